@@ -77,7 +77,7 @@ class Assembler:
             only = inc.get('only')
             for it in other.get('item', []):
                 it = dict(it)
-                if only is not None and it.get('path', it.get('in')) not in only and not any(it.get('path', it.get('in'), ).startswith(o + '::') or it.get('in') == o for o in only):
+                if only is not None and it.get('path', it.get('in')) not in only:
                     continue
                 if 'path' in it and re.search(r'(^|::)\s*fn \w+$', it['path']) and (it.get('ensures') or it.get('requires')) and not it.get('assumed'):
                     it = {'file': it['file'], 'path': it['path'], 'contract_from': inc['unit']}
@@ -573,6 +573,51 @@ class Assembler:
                                            'sha256': hashlib.sha256(item.text().encode()).hexdigest(),
                                            'item_index': idx,
                                            'has_contract': bool(spec.get('requires') or spec.get('ensures') or spec.get('loop')) and FnParts(item).k_body_open is not None})
+            if item.kind == 'struct' and spec.get('keep_fields') is not None:
+                # struct projection: fields the extracted functions do not use are dropped (mechanical; rustc rejects
+                # any body that touches a dropped field)
+                keep = set(spec['keep_fields'])
+                br = item.body_range()
+                m = s.match()
+                k = br[0] + 1
+                seen = set()
+                while k < br[1]:
+                    f0 = k
+                    while s.is_p(k, '#'):
+                        k = m[k + 1] + 1
+                    kk = k
+                    if s.is_id(kk, 'pub'):
+                        kk += 1
+                        if s.is_p(kk, '('):
+                            kk = m[kk] + 1
+                    fname = s.s(kk)
+                    # find end of field: ',' at depth 0 (skipping generics)
+                    j = kk
+                    d = 0
+                    while j < br[1]:
+                        if s.kind(j) == 'p':
+                            c = s.s(j)
+                            if c in '([{':
+                                j = m[j] + 1
+                                continue
+                            if c == '<':
+                                d += 1
+                            elif c == '>':
+                                d -= 1
+                            elif c == ',' and d == 0:
+                                break
+                        j += 1
+                    f1 = j  # index of ',' or br[1]
+                    if fname in keep:
+                        seen.add(fname)
+                    else:
+                        endpos = s.t[f1][2] if f1 < br[1] else s.t[br[1]][1]
+                        ed.delete(s.t[f0][1], endpos)
+                    k = f1 + 1
+                missing = keep - seen
+                if missing:
+                    raise ExtractError('lost anchor: struct %s has no field(s) %s' % (item.name, ', '.join(sorted(missing))))
+                self.fired.add('13:struct-projection')
             for a in spec.get('attrs', []):
                 ed.insert(item.start, a + '\n', order=-3)
             if item.kind in ('const', 'static'):
